@@ -109,6 +109,34 @@ def run(tier):
                       {"trace": tr, "rejected": info})
     for idx, inv in invs:
         chk.violation("transfer/invariant-" + inv, "recorded execution violates " + inv, {"trace": traces[idx]})
+    # a whole client (contact, SESS_INIT, transfer) against a peer that declares a segment MRU: what is on the wire, judged by SegsFrom
+    wrecf = os.path.join(scratch("rec"), "c11-wire.ndjson")
+    st3 = run_harness(chk, "client sessions on the wire", "pkg/cla/tcpclv4", ["common/vh.go", "tcpclv4/client.go"], "TestVerifC11Client", env={"VERIF_REC": wrecf}, timeout=900)
+    wrecs = read_ndjson(wrecf)
+    if len(wrecs) != st3.get("sessions") or len(wrecs) < 20:
+        raise InfraError("client session recorder incomplete: %s" % st3)
+    wmod = {"TcpclWire.tla": """---- MODULE TcpclWire ----
+EXTENDS Tcpcl, Json
+CONSTANT RecFile
+Recs == ndJsonDeserialize(RecFile)
+WireProblems(r) ==
+  {p \\in {"session-failed", "send-failed", "not-the-encoding", "segments-not-those-of-the-negotiated-size"} :
+     CASE p = "session-failed" -> r.err # ""
+       [] p = "send-failed" -> r.err = "" /\\ ~r.send_ok
+       [] p = "not-the-encoding" -> r.err = "" /\\ ~r.same
+       [] p = "segments-not-those-of-the-negotiated-size" -> r.err = "" /\\ r.segs # SegsFrom(r.l, r.m, 0)}
+ASSUME \\A i \\in 1..Len(Recs) : LET p == WireProblems(Recs[i]) IN p = {} \\/ PrintT(<<"BAD", ToJson([i |-> i, problems |-> p])>>)
+ASSUME PrintT(<<"CHECKED", ToJson([n |-> Len(Recs)])>>)
+CheckSpec == InitFor([m |-> 1, len |-> <<1>>, fault |-> <<"none">>, at |-> <<0>>]) /\\ [][FALSE]_vars
+====
+"""}
+    n4, bad4, results4 = check_records("TcpclWire", " Cfgs = {}", wrecs, name="tcpclwire", extra_files=wmod)
+    for r in results4:
+        chk.add_tlc("wire records", r)
+    for idx, problems in bad4:
+        for p in problems:
+            chk.violation("session/wire/" + p, "record judged by Tcpcl!SegsFrom: " + json.dumps({k: v for k, v in wrecs[idx].items() if k != "segs"}) +
+                          " first segments " + json.dumps(wrecs[idx]["segs"][:3]), wrecs[idx])
     ndiv = sum(1 for t in traces if any(l % t["cfg"]["m"] == 0 for l in t["cfg"]["len"]))
     if ndiv == 0:
         raise InfraError("vacuous: no scenario in which the segment size divides the encoded length")
